@@ -166,6 +166,11 @@ def cmp (a b : Obj) : Outcome Int :=
       else if ys.length < xs.length then .ok 1
       else cmpKVs xs ys
     | b' => cmpTop (map xs) b'
+  | ret v =>
+    -- fix: break/continue/return values (they can sit in arrays: [break] == [break]) are ordered by what they carry
+    match b.value with
+    | ret w => cmp v w
+    | b' => cmpTop (ret v) b'
   | a => cmpTop a b.value
 /-- the element loop of the ARRAY case -/
 def cmpList : List Obj → List Obj → Outcome Int
